@@ -31,9 +31,53 @@ def make_obj14(spec: str):
     return B.make_obj(spec)
 
 
+# ---------------------------------------------------------------------------
+# Trees that are instances of SUBCLASSES of Tree / TypedTree overriding the class-level hooks (serialize_mapper and
+# deserialize_mapper – documented as the defaults of save()/load() only –, the key/value maps, DEFAULT_CHILD_TYPE,
+# calc_data_id).  to_dict_list / to_dict / from_dict called WITHOUT an explicit mapper must behave exactly as for the
+# base class (the model is unchanged) and must never call the mapper hooks.
+# ---------------------------------------------------------------------------
+HOOK_CALLS = [0]
+
+
+class _HookMixin:
+    DEFAULT_KEY_MAP = {"data_id": "I", "str": "S", "label": "L"}
+    DEFAULT_VALUE_MAP = {"L": ["a", "b"]}
+
+    @classmethod
+    def serialize_mapper(cls, node, data):
+        HOOK_CALLS[0] += 1
+        return {"label": f"{node.data}", "key": node.data_id}
+
+    @classmethod
+    def deserialize_mapper(cls, parent, data):
+        HOOK_CALLS[0] += 1
+        data["data_id"] = data.get("key")
+        return data.get("label")
+
+
+class HookTree(_HookMixin, Tree):
+    pass
+
+
+class HookCalcTree(_HookMixin, Tree):
+    def calc_data_id(self, data):          # overridden method instead of the calc_data_id= hook
+        return f"id:{data}"
+
+
+class HookTypedTree(_HookMixin, H.TypedTree):
+    DEFAULT_CHILD_TYPE = "kid"
+
+
+SUBCLASSES = {"hook": HookTree, "hookcalc": HookCalcTree, "hooktyped": HookTypedTree}
+
+
 def build14(desc):
     U = H.Universe([make_obj14(s) for s in desc["univ"]])
-    t = B.new_tree(desc)
+    if desc.get("subclass"):
+        t = SUBCLASSES[desc["subclass"]]("T", calc_data_id=B.calc_fn(desc.get("calc")))
+    else:
+        t = B.new_tree(desc)
     B.add_nodes(t._root, desc["nodes"], U, bool(desc.get("typed")))
     snapshot_universe(U)
     return t, U
@@ -504,7 +548,9 @@ class Prop:
             "clear + re-add: every single operation on every node of every forest <= 3 nodes, pairs on 4 nodes, random histories); "
             "the same histories between TWO serialisations with the same mapper and the same data objects (stock "
             "DictWrapper.serialize_mapper on DictWrapper data, harness mappers on plain-dict / dataclass / DictWrapper data, stock "
-            "Tree.serialize_mapper on strings), all caller-owned data objects snapshotted before and compared after; seeded random trees (5..18 nodes quick, 5..30 thorough); 47 hand-written + 150 (thorough 500) random dict lists (missing/unhashable data, bad data_id / node_id / children entries, non-dict items); Node.from_dict "
+            "Tree.serialize_mapper on strings), all caller-owned data objects snapshotted before and compared after; "
+            "instances of Tree / TypedTree SUBCLASSES overriding the class-level hooks (serialize_mapper, deserialize_mapper, key/value "
+            "maps, DEFAULT_CHILD_TYPE, calc_data_id) without explicit mapper (hooks must not be called; tree-level = node-level); seeded random trees (5..18 nodes quick, 5..30 thorough); 47 hand-written + 150 (thorough 500) random dict lists (missing/unhashable data, bad data_id / node_id / children entries, non-dict items); Node.from_dict "
             "into every node of every forest <= 3 (thorough 4) nodes x 3 calc_data_id hooks x 6 item lists.  Every dump goes through "
             "json.dumps/json.loads before from_dict.  A case is one tree (or one dict list); distinct = distinct desc; non-trivial = >= 3 nodes")
     exhaustive_note = ("all shapes <= 3 nodes x all labelings (2 strings x 5 data_id choices; quick: 2 choices at 3 nodes); "
@@ -676,6 +722,24 @@ class Prop:
             d = hist_desc(shape, n, hist, sm=rng.choice(["none", "none", "set", "extra", "guid"]))
             if ok(d):
                 yield d
+        # (3d) instances of Tree / TypedTree subclasses that override the class-level hooks; no explicit mapper (and a
+        #      few with one): same behaviour as the base class, tree-level and node-level entry points agree
+        for n in (1, 2, 3) if tier == "quick" else (1, 2, 3, 4):
+            for si, shape in enumerate(H.forests(n)):
+                for sub in ("hook", "hookcalc", "hooktyped"):
+                    typed = sub == "hooktyped"
+                    d = dict(univ=["s:a", "s:b", "s:c", "e:1"], subclass=sub, typed=typed, sm="none",
+                             nodes=B.shape_to_nodes(shape, lambda i, dp, s: ((i + dp) % 3, "ab"[i % 2] if typed else None,
+                                                                              None if (i + si) % 2 else f"x{i}")))
+                    if ok(d):
+                        yield d
+                    if n == 3:
+                        d = dict(d, sm=["set", "extra", "guid"][si % 3], univ=["s:a", "s:b", "s:c", "e:1"])
+                        if ok(d):
+                            yield d
+                        d = dict(d, sm="none", warm=True, hist=[["remove_children", si % 3]])
+                        if ok(d):
+                            yield d
         # (3c) serialize -> mutate the same tree -> serialize again with the SAME mapper and the SAME data objects
         #      (DictWrapper data with the stock DictWrapper.serialize_mapper, plain-dict / dataclass / DictWrapper data
         #      with the harness's mappers, strings with the stock Tree.serialize_mapper); every caller-owned data object
@@ -798,7 +862,10 @@ class Prop:
             return self.run_load(desc)
         if "into" in desc:
             return self.run_into(desc)
+        HOOK_CALLS[0] = 0
         tree, U = build14(desc)
+        # Tree.from_dict is a classmethod: for a plain subclass it is called on the subclass
+        from_dict_cls = type(tree) if desc.get("subclass") in ("hook", "hookcalc") else Tree
         apply_prep(tree, desc.get("prep"))
         kind = desc.get("sm", "none")
         ser, deser = make_ser(kind, U), make_deser(kind, U)
@@ -850,7 +917,10 @@ class Prop:
         dt = coq_dtable(wire, kind, U)
         wire0 = copy.deepcopy(wire)
         nxt = H.alloc_count()
-        rebuilt = call(lambda: Tree.from_dict(wire, mapper=deser))
+        rebuilt = call(lambda: from_dict_cls.from_dict(wire, mapper=deser))
+        if not fail and kind == "none" and not desc.get("tree_mapper") and HOOK_CALLS[0]:
+            fail = (f"hooks: the class-level serialize_mapper/deserialize_mapper hook of the Tree subclass was called "
+                    f"{HOOK_CALLS[0]}x though no mapper was passed")
         if not fail and not is_err(rebuilt):
             # from_dict must not modify the caller's structure (beyond what the caller's own mapper does to an item)
             if jv_sx(wire) != jv_sx(after_mapper(kind, wire0)):
